@@ -39,6 +39,8 @@ TRUSTED_BASE = [
     "cosmos-sdk module manager, baseapp.InitChain/Commit/Query, IAVL (exercised, not modelled)",
 ]
 ASSUMPTIONS = [
+    "the `h` of epochsRebased is the height of the header InitChain runs InitGenesis with: the InitialHeight the harness passes if it is > 1, else 0 "
+    "(cosmos-sdk v0.45 baseapp sets the header height only for InitialHeight > 1); one generated document in eight is imported at InitialHeight 1",
     "init_export theorems: the store is key-sorted without duplicate keys and every record is stored under the key computed "
     "from its own fields (WF) — what the keepers' Set* functions do by construction",
     "documents: well-formed = ValidateGenesis accepts and no two items of a collection share a store key; Ethereum addresses "
